@@ -232,8 +232,11 @@ def shape_handlers(F, rep):
         te_in_else = False
         for i in nodes(arm["body"], "If"):
             if peel(i["c"]).get("k") == "LetCond" and "fall_through" in pp(i["c"]) and i.get("e"):
-                te_in_else = any(tc.constraint_name(c["args"][2]) == "TotalEnum" for c in nodes(i["e"], "MethodCall")
-                                 if callee(c) == TC + "add_constraint")
+                from flow import uncond_nodes
+                # .. on every path through it: a shortcut that skips the requirement (`as many branches as variants`) admits a
+                # case that names one variant twice and leaves another out
+                te_in_else = any(tc.constraint_name(c["args"][2]) == "TotalEnum" for c in uncond_nodes(i["e"])
+                                 if isinstance(c, dict) and c.get("k") == "MethodCall" and callee(c) == TC + "add_constraint")
         rep.ob("SHAPE-ACCEPT", "expression|Case|total-when-no-else", te_in_else,
                "a case without else must list exactly the enum's variants (TotalEnum added in the no-else branch)", line_of(arm))
         # the set passed to TotalEnum is built from the branch patterns
